@@ -7,12 +7,24 @@ namespace Batchie.Orchestrator
 
 variable (cfg : Cfg)
 
-/-- every pipeline run publishes the completion marker -/
-def HasMarker : Prop := ∀ l, (findKind .marker (cfg.pubs l)).isSome = true
+/-- the workflows the script launches in each mode -/
+def allowed : Mode → Workflow → Bool
+  | .retrospective, .prospFirst => false
+  | .retrospective, _ => true
+  | .prospective, .prospFirst => true
+  | .prospective, .nextPlate => true
+  | .prospective, _ => false
 
-/-- ... and publishes it last (true of the `retrospective` and `next_plate` workflows; NOT of `prospective`) -/
+/-- every pipeline run (of a workflow the mode uses) publishes the completion marker -/
+def HasMarker : Prop := ∀ l, allowed cfg.mode l.wf = true → (findKind .marker (cfg.pubs l)).isSome = true
+
+/-- ... and publishes it last, once.  This is true of the `retrospective` and `next_plate` workflows
+    (`EXTRACT_SCREEN_METADATA` consumes the advanced screen) and NOT of `prospective/main.nf`. -/
 def MarkerLast : Prop :=
-  ∀ l, ∃ xs m, cfg.pubs l = xs ++ [⟨.marker, m⟩] ∧ ∀ f ∈ xs, f.kind ≠ .marker
+  ∀ l, allowed cfg.mode l.wf = true → ∃ xs m, cfg.pubs l = xs ++ [⟨.marker, m⟩] ∧ ∀ f ∈ xs, f.kind ≠ .marker
+
+/-- all completed steps are runs of workflows the mode uses -/
+def WfOK (p : Prog) : Prop := ∀ l ∈ p.flat, allowed cfg.mode l.wf = true
 
 theorem findKind_none_of_forall {k : Kind} {fs : List File} (h : ∀ f ∈ fs, f.kind ≠ k) : findKind k fs = none := by
   unfold findKind
@@ -20,8 +32,8 @@ theorem findKind_none_of_forall {k : Kind} {fs : List File} (h : ∀ f ∈ fs, f
   intro f hf; simpa using h f hf
 
 theorem MarkerLast.hasMarker (h : MarkerLast cfg) : HasMarker cfg := by
-  intro l
-  obtain ⟨xs, m, hp, hx⟩ := h l
+  intro l hl
+  obtain ⟨xs, m, hp, hx⟩ := h l hl
   rw [hp]
   unfold findKind
   rw [List.find?_append]
@@ -45,7 +57,8 @@ def afterPlates (it pos : Nat) (ls : List Launch) (st : ExSt) : ExSt :=
   | none => st
   | some l => stAfter cfg it (pos + ls.length - 1) l
 
-theorem scanPlates_full (hm : HasMarker cfg) (it : Nat) (ls : List Launch) :
+theorem scanPlates_full (hm : HasMarker cfg) (it : Nat) (ls : List Launch)
+    (hw : ∀ l ∈ ls, allowed cfg.mode l.wf = true) :
     ∀ (pos : Nat) (st : ExSt) (rest : List PlateDir),
       scanPlates it pos (platesFrom cfg pos ls ++ rest) st =
         scanPlates it (pos + ls.length) rest (afterPlates cfg it pos ls st) := by
@@ -53,14 +66,14 @@ theorem scanPlates_full (hm : HasMarker cfg) (it : Nat) (ls : List Launch) :
   | nil => intro pos st rest; simp [platesFrom, afterPlates]
   | cons x xs ih =>
     intro pos st rest
-    have hx := hm x
+    have hx := hm x (hw x (by simp))
     obtain ⟨f, hf⟩ := Option.isSome_iff_exists.mp hx
     have hmeta : metaOf ⟨pos, some (cfg.pubs x)⟩ = some f.content := by
       simp [metaOf, PlateDir.files, hf]
     simp only [platesFrom, List.cons_append]
     rw [scanPlates, hmeta]
     simp only [ne_eq, not_true_eq_false, ↓reduceIte]
-    rw [ih (pos + 1)]
+    rw [ih (fun l hl => hw l (by simp [hl])) (pos + 1)]
     have e1 : pos + 1 + xs.length = pos + (x :: xs).length := by simp only [List.length_cons]; omega
     rw [e1]
     congr 1
@@ -84,7 +97,8 @@ def afterIters (i : Nat) (cs : List (List Launch)) (st : ExSt) : ExSt :=
   | none => st
   | some c => afterPlates cfg (i + cs.length - 1) 0 c st
 
-theorem scanIters_full (hm : HasMarker cfg) (cs : List (List Launch)) (hne : ∀ c ∈ cs, c ≠ []) :
+theorem scanIters_full (hm : HasMarker cfg) (cs : List (List Launch)) (hne : ∀ c ∈ cs, c ≠ [])
+    (hw : ∀ c ∈ cs, ∀ l ∈ c, allowed cfg.mode l.wf = true) :
     ∀ (i : Nat) (st : ExSt) (rest : List IterDir),
       scanIters (itersFrom cfg i cs ++ rest) st = scanIters rest (afterIters cfg i cs st) := by
   induction cs with
@@ -102,11 +116,11 @@ theorem scanIters_full (hm : HasMarker cfg) (cs : List (List Launch)) (hne : ∀
       | cons a b => simp [platesFrom]
     rw [hne']
     simp only [Bool.false_eq_true, ↓reduceIte]
-    have h0 := scanPlates_full cfg hm i c 0 { st with curPlate := some 0 } []
+    have h0 := scanPlates_full cfg hm i c (hw c (by simp)) 0 { st with curPlate := some 0 } []
     simp only [List.append_nil, Nat.zero_add] at h0
     rw [h0]
     simp only [scanPlates]
-    rw [ih (fun c' h' => hne c' (by simp [h'])) (i + 1)]
+    rw [ih (fun c' h' => hne c' (by simp [h'])) (fun c' h' => hw c' (by simp [h'])) (i + 1)]
     congr 1
     unfold afterIters
     cases hcs : cs.getLast? with
@@ -156,14 +170,14 @@ theorem getLast?_isSome_of_ne {α : Type} {l : List α} (h : l ≠ []) : ∃ x, 
   | none => exact absurd (by simpa using h') h
   | some x => exact ⟨x, rfl⟩
 
-theorem metaOf_pubs_isSome (hm : HasMarker cfg) (j : Nat) (l : Launch) :
+theorem metaOf_pubs_isSome (hm : HasMarker cfg) (j : Nat) (l : Launch) (hl : allowed cfg.mode l.wf = true) :
     ∃ m, metaOf ⟨j, some (cfg.pubs l)⟩ = some m := by
-  obtain ⟨f, hf⟩ := Option.isSome_iff_exists.mp (hm l)
+  obtain ⟨f, hf⟩ := Option.isSome_iff_exists.mp (hm l hl)
   exact ⟨f.content, by simp [metaOf, PlateDir.files, hf]⟩
 
 /-- `nextOf` on the state after complete iterations only -/
 theorem nextOf_afterIters (hm : HasMarker cfg) (B : Nat) (hB : 1 ≤ B) (cs : List (List Launch))
-    (hcs : ∀ c ∈ cs, c.length = B) :
+    (hcs : ∀ c ∈ cs, c.length = B) (hw : ∀ c ∈ cs, ∀ l ∈ c, allowed cfg.mode l.wf = true) :
     nextOf B (afterIters cfg 0 cs {}) = nextOfProg cfg ⟨cs, []⟩ := by
   unfold afterIters nextOfProg lastStep
   cases h : cs.getLast? with
@@ -173,6 +187,7 @@ theorem nextOf_afterIters (hm : HasMarker cfg) (B : Nat) (hB : 1 ≤ B) (cs : Li
     have hne : c ≠ [] := by intro e; subst e; simp at hc; omega
     obtain ⟨l, hl⟩ := getLast?_isSome_of_ne hne
     obtain ⟨m, hmm⟩ := metaOf_pubs_isSome cfg hm (c.length - 1) l
+      (hw c (List.mem_of_getLast? h) l (List.mem_of_getLast? hl))
     have hcsne : cs ≠ [] := by intro e; subst e; simp at h
     have hlen : 1 ≤ cs.length := by
       cases cs with
@@ -187,7 +202,7 @@ theorem nextOf_afterIters (hm : HasMarker cfg) (B : Nat) (hB : 1 ≤ B) (cs : Li
 
 /-- **what `examine` returns on every reachable directory** -/
 theorem examine_treeIters (hm : HasMarker cfg) (B : Nat) (hB : 1 ≤ B) (p : Prog) (hp : ProgOK B p)
-    (jk : Junk) (hj : JunkOK jk) (o : Bool) :
+    (hw : WfOK cfg p) (jk : Junk) (hj : JunkOK jk) (o : Bool) :
     examine B ⟨o, treeIters cfg p jk⟩ =
       match jk with
       | .plate _ => .err (.invalid p.cs.length p.cur.length)
@@ -196,13 +211,16 @@ theorem examine_treeIters (hm : HasMarker cfg) (B : Nat) (hB : 1 ≤ B) (p : Pro
     intro c hc e
     have := hp.1 c hc
     subst e; simp at this; omega
+  have hwcs : ∀ c ∈ p.cs, ∀ l ∈ c, allowed cfg.mode l.wf = true := fun c hc l hl =>
+    hw l (List.mem_append_left _ (List.mem_flatten.mpr ⟨c, hc, hl⟩))
+  have hwcur : ∀ l ∈ p.cur, allowed cfg.mode l.wf = true := fun l hl => hw l (List.mem_append_right _ hl)
   unfold examine
   simp only
   rw [sortBy_eq_self _ _ (treeIters_sorted cfg p jk)]
   unfold treeIters
-  rw [scanIters_full cfg hm p.cs hne 0 {} _]
+  rw [scanIters_full cfg hm p.cs hne hwcs 0 {} _]
   -- the state after the complete iterations
-  have hnext0 := nextOf_afterIters cfg hm B hB p.cs hp.1
+  have hnext0 := nextOf_afterIters cfg hm B hB p.cs hp.1 hwcs
   generalize afterIters cfg 0 p.cs {} = st0 at hnext0 ⊢
   unfold lastIter
   by_cases hcur : p.cur = []
@@ -237,9 +255,9 @@ theorem examine_treeIters (hm : HasMarker cfg) (B : Nat) (hB : 1 ≤ B) (p : Pro
       | cons a b => simp [platesFrom]
     rw [hne']
     simp only [Bool.false_eq_true, ↓reduceIte]
-    rw [scanPlates_full cfg hm]
+    rw [scanPlates_full cfg hm _ _ hwcur]
     obtain ⟨l, hl⟩ := getLast?_isSome_of_ne hcur
-    obtain ⟨m, hmm⟩ := metaOf_pubs_isSome cfg hm (p.cur.length - 1) l
+    obtain ⟨m, hmm⟩ := metaOf_pubs_isSome cfg hm (p.cur.length - 1) l (hwcur l (List.mem_of_getLast? hl))
     have hlen : 1 ≤ p.cur.length := by
       cases hc : p.cur with
       | nil => exact absurd hc hcur
